@@ -35,13 +35,44 @@ INF = {'inff', 'path:std::f64::INFINITY', 'path:core::f64::INFINITY', 'path:std:
        'path:core::f64::<impl f64>::INFINITY'}
 
 
-def _is_strict(leaf, table):
+CALLBACK_CALLS = ('call0', 'call1', 'call', 'call_method0', 'call_method1', 'call_method', 'call2', 'call3', 'apply')
+STRICT_BOOL_ON_PYBOOL = {'pyo3::types::PyBoolMethods::is_true'}
+
+
+def _root_ok(leaf, methods):
+    """the converted object is the callback's own result: every receiver root is a call of the user's callable
+    (call0/call1/..) or of the expected method (call_method*("is_satisfied")) — not a value derived from it by a
+    further Python-level call such as __bool__ / __float__ / bool()"""
+    roots = leaf[3] if len(leaf) > 3 else frozenset()
+    if not roots:
+        return False
+    for r in roots:
+        if r[0] != 'call':
+            return False
+        name = r[1].rsplit('::', 1)[-1]
+        if name not in CALLBACK_CALLS:
+            return False
+        if name.startswith('call_method') and r[2] not in (methods or ('__call__', 'is_valid', 'isValid')):
+            return False
+    return True
+
+
+def _is_strict(leaf, table, methods=None):
     if leaf[0] != 'extract':
         return False
+    hit = False
     for (p, g) in table:
         if leaf[1] == p and (g is None or leaf[2] == g):
-            return True
-    return False
+            hit = True
+    if not hit and table is STRICT_BOOL and leaf[1] in STRICT_BOOL_ON_PYBOOL:
+        hit = True          # is_true() on a Bound<PyBool> obtained by downcast of the callback result
+    return hit and _root_ok(leaf, methods)
+
+
+def _fmt_leaf(l):
+    if l[0] == 'extract' and len(l) > 3:
+        return '%s::<%s> applied to %s' % (l[1], l[2], sorted('%s(%s)' % (r[1].rsplit('::', 1)[-1], r[2] or '') if r[0] == 'call' else str(r) for r in l[3]))
+    return str(l)
 
 
 def _check_impls(ctx, crate, cname, res_v, res_g, res_s):
@@ -74,8 +105,9 @@ def _check_impls(ctx, crate, cname, res_v, res_g, res_s):
         elif tr == GOAL and b.name == 'is_satisfied':
             counts['goal'] += 1
             leaves = lv.value(fn, lv.ret_terms(fn))
-            bad = [l for l in leaves if not (_is_strict(l, STRICT_BOOL) or l == ('const', 'false'))]
-            ok = not bad and any(_is_strict(l, STRICT_BOOL) for l in leaves)
+            MS = ('is_satisfied', 'isSatisfied')
+            bad = [l for l in leaves if not (_is_strict(l, STRICT_BOOL, MS) or l == ('const', 'false'))]
+            ok = not bad and any(_is_strict(l, STRICT_BOOL, MS) for l in leaves)
             res_g.inst('%s: %s returns %s' % (cname, b.path, sorted(map(str, leaves))), ok=ok, site=b.loc(0))
             for l in bad:
                 res_g.violations.append(Violation(
@@ -89,7 +121,8 @@ def _check_impls(ctx, crate, cname, res_v, res_g, res_s):
         elif tr == GOALREGION and b.name == 'distance_goal':
             counts['region'] += 1
             leaves = lv.value(fn, lv.ret_terms(fn))
-            bad = [l for l in leaves if not (_is_strict(l, STRICT_F64) or (l[0] == 'const' and l[1] in INF))]
+            MD = ('distance_goal', 'distanceGoal')
+            bad = [l for l in leaves if not (_is_strict(l, STRICT_F64, MD) or (l[0] == 'const' and l[1] in INF))]
             ok = not bad
             res_g.inst('%s: %s returns %s' % (cname, b.path, sorted(map(str, leaves))), ok=ok, site=b.loc(0))
             for l in bad:
